@@ -2,7 +2,7 @@
 import re
 from .runner import Prop
 from . import core
-from gen import trees, text, misc, builtins
+from gen import trees, text, misc, builtins, regexgen
 
 COMMON_ASSUME = ['the model corresponds to the code only as far as the generated cases exercise it (differential test, not a proof)',
                  'Rust std, rustc and the crates of Cargo.lock behave as documented']
@@ -377,4 +377,22 @@ class C14(Prop):
         return bad[:5]
 
 
-ALL = {c.pid: c for c in (C09, C14, C13, C15, C16, C17, C12, C19, C01, C02, C03, C04, C05, C06, C07, C08, C10, C11)}
+class C18(Prop):
+    pid = 'C18'
+    k_fields = ['M', 'F', 'C', 'P', 'L']
+    o_fields = ['regex']
+    trusted_extra = ['regex-lite\'s engine: trusted; compared with a small reference engine in Coq on the generated subset']
+    rule = ('31 fixed and 700 (60000) random patterns over literals, `.`, classes (also negated), * + ?, alternation, capturing and non-capturing groups, ^ and $, '
+            'including empty-matching patterns, generated as ASTs and rendered to pattern text; 6 (17) haystacks each (empty, ASCII, non-ASCII, newline), replacement '
+            'strings, limits 0..5 and fractional/negative; 18 escaped literals x 27 haystacks; 18 invalid and 8 valid-but-unmodelled patterns. Oracle on the '
+            'implementation alone: the four builtins against regex-lite used directly by the harness (is_match iff find non-empty, find = find_iter, capture = first '
+            'captures padded with empty strings and of length captures_len in both cases, replace without limit splices exactly the find spans and with limit n the '
+            'first n), escaped literal = contains/count/replace, invalid pattern = error value from all four. Correspondence: all five outputs against the wrappers '
+            'over the Coq reference engine (leftmost-first backtracking)')
+    assumptions = COMMON_ASSUME + ['regex-lite is the engine under the wrappers: its matching semantics are compared with the reference engine on the generated subset only']
+
+    def gen(self, tier, R):
+        return [(c, 'release') for c in regexgen.gen_c18(tier, R)]
+
+
+ALL = {c.pid: c for c in (C18, C09, C14, C13, C15, C16, C17, C12, C19, C01, C02, C03, C04, C05, C06, C07, C08, C10, C11)}
